@@ -100,7 +100,9 @@ func (c cx) fail(format string, args ...any) {
 
 type parts struct{ l, d, r, s string }
 
-func (p parts) String() string { return fmt.Sprintf("(local=%q domain=%q resource=%q String=%q)", p.l, p.d, p.r, p.s) }
+func (p parts) String() string {
+	return fmt.Sprintf("(local=%q domain=%q resource=%q String=%q)", p.l, p.d, p.r, p.s)
+}
 
 func (c cx) parts(what string, j jid.JID) (p parts) {
 	if pn := ev.Guard(func() { p = parts{j.Localpart(), j.Domainpart(), j.Resourcepart(), j.String()} }); pn != "" {
